@@ -5,6 +5,16 @@ use std::alloc::{GlobalAlloc, Layout, System};
 use std::cell::Cell;
 
 pub const REFUSE_ABOVE: usize = 1 << 30;
+/// Refusal is for the isolated worker processes only (they run the library on hostile input); the
+/// parent, which merges the workers' coverage sets, may allocate whatever it needs.
+static REFUSE: std::sync::atomic::AtomicBool = std::sync::atomic::AtomicBool::new(false);
+pub fn refuse_absurd_requests(on: bool) {
+    REFUSE.store(on, std::sync::atomic::Ordering::SeqCst);
+}
+#[inline]
+fn refusing() -> bool {
+    REFUSE.load(std::sync::atomic::Ordering::Relaxed)
+}
 
 thread_local! {
     static MAX_REQ: Cell<usize> = const { Cell::new(0) };
@@ -26,7 +36,7 @@ fn note(size: usize) {
 unsafe impl GlobalAlloc for Counting {
     unsafe fn alloc(&self, l: Layout) -> *mut u8 {
         note(l.size());
-        if l.size() > REFUSE_ABOVE {
+        if l.size() > REFUSE_ABOVE && refusing() {
             super::iso::note_refused(l.size());
             return std::ptr::null_mut();
         }
@@ -34,7 +44,7 @@ unsafe impl GlobalAlloc for Counting {
     }
     unsafe fn alloc_zeroed(&self, l: Layout) -> *mut u8 {
         note(l.size());
-        if l.size() > REFUSE_ABOVE {
+        if l.size() > REFUSE_ABOVE && refusing() {
             super::iso::note_refused(l.size());
             return std::ptr::null_mut();
         }
@@ -45,7 +55,7 @@ unsafe impl GlobalAlloc for Counting {
     }
     unsafe fn realloc(&self, p: *mut u8, l: Layout, new: usize) -> *mut u8 {
         note(new);
-        if new > REFUSE_ABOVE {
+        if new > REFUSE_ABOVE && refusing() {
             super::iso::note_refused(new);
             return std::ptr::null_mut();
         }
